@@ -111,3 +111,17 @@ void h_pnum_scan(void) {
   uint64_t want = g_mf_kind == 1 ? vbits64((double)(neg ? -vin_unbits32((uint32_t)g_mf_ret) : vin_unbits32((uint32_t)g_mf_ret))) : (g_mf_ret ^ ((uint64_t)neg << 63));
   if (!(d != d)) VASSERT(vbits64(d) == want, "the scaled value is returned with the literal's sign");
 }
+
+/* ---- 8 significant digits "D.DDDDDDD": more than seven significant digits must take the double-precision path (the
+ * single-precision one cannot give 1e-13 relative accuracy); the mantissa/exponent pair must denote the literal */
+void h_pnum_8digits(void) {
+  uint8_t s[10]; uint64_t M = 0;
+  for (unsigned i = 0; i < 9; i++) { if (i == 1) { s[i] = '.'; continue; } uint8_t c = vin_u8(); VASSUME(c >= '0' && c <= '9'); s[i] = c; M = M * 10 + (c - '0'); }
+  s[9] = 0; VASSUME(s[0] != '0');
+  uint64_t u = 0, i64 = 0; double d = 0;
+  int k = (int)w_parse_kind(s, &u, &i64, &d); VOBS(k);
+  VASSERT(k == 1 || k == 4, "floating kind"); VASSERT(g_mf_calls >= 1, "scaled once");
+  VASSERT(g_mf_m == (double)M && g_mf_e == -7, "mantissa 8 digits, exponent -7: exactly the literal");
+  VASSERT(k == 4 && g_mf_kind == 4, "eight significant digits are parsed in double precision (a float cannot hold them to 1e-13)");
+  VWITNESS("any");
+}
